@@ -37,6 +37,8 @@ func (c c06) Generate(seed uint64, tier string, idx int) *core.Plan {
 	p := &core.Plan{Prop: "C06", Seed: r.U64(), Tier: tier, Cfg: map[string]int64{}}
 	p.Cfg["spare"] = int64(r.Pick([]int{0, 7, 64}))
 	p.Cfg["segmode"] = int64(r.Pick([]int{0, 2}))
+	p.Cfg["bufreuse"] = int64(r.Intn(2))
+	p.Cfg["scramble"] = int64(r.Intn(256))
 	p.Steps = append(p.Steps, core.Step{Op: "iss", A: []int64{3, int64(idx % 8)}})
 	ncl := r.Range(2, 3)
 	for i := 0; i < ncl; i++ {
@@ -103,6 +105,10 @@ func sideFamily(m *simnet.Msg, other [][]byte, seed int64) (out []*simnet.Msg) {
 	bn.Add(bn, N)
 	add("blind-plus-N", bn.Bytes(), ckey)
 	add("blind-truncated", blind[:47], ckey)
+	add("blind-prefixed-1", append([]byte{0x5a}, blind...), ckey)
+	add("blind-prefixed-1", append([]byte{0x01}, blind...), ckey)
+	add("blind-prefixed-2", append([]byte{0x80, 0x00}, blind...), ckey)
+	add("blind-suffixed", append(append([]byte(nil), blind...), 0x00), ckey)
 	// client key variants
 	add("clientkey-base-point", blind, compressedBase([]byte{1}))
 	add("clientkey-random-point", blind, compressedBase(ob))
